@@ -6,27 +6,36 @@ CFG = {
     "pkg": "banyand/internal/verif/props/c04",
     "level": "exploration",
     "fs_shim": True,
-    "level_text": ("crash-recovery simulation, one scenario per engine (measure-node-crash, stream-node-crash): a real standalone measure or stream node runs a generated write/flush/merge history on a journaling disk shim below pkg/fs; from the journal the simulator materialises "
+    "level_text": ("crash-recovery simulation, one scenario per engine (measure-node-crash, stream-node-crash, trace-node-crash): a real standalone measure, stream or trace node runs a generated write/flush/merge history on a journaling disk shim below pkg/fs; from the journal the simulator materialises "
                    "the directory tree a kill -9 or a power loss (ordered-metadata model, torn/short/zero-filled un-synced tails, partially applied namespace operations) at a chosen operation would leave, "
                    "boots the REAL node on it and reads everything back; oracle: start-up succeeds, no garbage or duplicate row, batches recovered whole and as a prefix per table, nothing recoverable "
                    "from an earlier crash point under a harsher model is lost at a later one (a batch whose flush had completed stays readable), and at the final quiescent point every flushed batch is recovered under both models; "
-                   "the stream scenario also requires every recovered element to carry the content that was written (a part served without some of its column files answers with holes)"),
-    "level_note": "crash points and cuts are sampled from the tape (6-12 per generated history, biased to rename/remove/dir-fsync boundaries and to the inside of writes; in the stream scenario also to the inside of one part creation, i.e. between the individual files of a flush or merge output), not enumerated; the series index (bluge) writes files itself: they are carried into every crash state as they were at the end of the history (index ahead of data), its own crash safety is not examined",
+                   "the stream scenario also requires every recovered element to carry the content that was written (a part served without some of its column files answers with holes); "
+                   "the trace scenario reads every acknowledged trace back by its id with all tags projected and requires every returned span to be a written span of that trace with its payload bytes and span id"),
+    "level_note": "crash points and cuts are sampled from the tape (6-12 per generated history, biased to rename/remove/dir-fsync boundaries and to the inside of writes; in the stream and trace scenarios also to the inside of one part creation, i.e. between the individual files of a flush or merge output, in the trace scenario also to the inside of one manifest publication), not enumerated; the series index (bluge) writes files itself: they are carried into every crash state as they were at the end of the history (index ahead of data), its own crash safety is not examined",
     "budget": {"quick": 90, "thorough": 1500},
     "rule": ("each seed draws a schema (1 shard), flush timeout 1/3/10s and merge fan-in, 3-12 operations (batch of 1-60 rows with acknowledgement / clock advance of 0.5s..90s), a final quiescent point two flush periods later, "
              "then 4-10 crash specifications (model K or P, crash op, bytes of an in-flight write, surviving namespace-op prefix 0/1/3/all, surviving un-synced tail 0/half/all, zero-fill) plus K and harshest P at the final point. "
              "In 6 of 7 seeds the n-th creation of a part directory (flush or merge output) is stalled for 1-3 driver operations, so that batches are acknowledged and manifests published while older maintenance is still writing. "
              "stream-node-crash draws the same history shape over a generated stream schema (1 shard, index rules, 1-2 tag families) and picks each crash op uniformly, at a rename/remove/dir-fsync boundary, or inside the creation of one tape-chosen part "
              "(2/3 exactly between two of its files); the journal is read back for part creations (labelled flush / mem-merge / merge by the engine loop that made the directory) and for published manifests, which only feed the reach.* probes. "
+             "trace-node-crash draws a trace schema (1 shard, 0-2 ordered secondary indexes, so every flush and merge also writes secondary-index parts), 2-8 traces of 1-6 spans with unique payloads cut into shuffled batches, merge concurrency 1-3, and the same history shape, stall fault and crash models; "
+             "in 5 of 6 seeds the goroutine that writes a snapshot manifest is descheduled for 1us of simulated time right before it creates the tmp file or right before the rename, so that everything the engine allows to run before the manifest is in place "
+             "(the asynchronous removers of replaced part directories included) is in the journal before it; each crash op is uniform, at a rename/remove/dir-fsync boundary, inside one part creation, or inside one manifest publication "
+             "(tmp creation .. rename; publications that replace completely written file parts, i.e. merge publications, preferred 2:1), the latter accompanied by the harshest power cut right after the last completed part creation as the reference of what was durable before. "
              "Non-trivial = at least one batch written; distinct = canonical event-log digests"),
     "expected_probes": ["fault.crash.kill9", "fault.crash.powerloss", "fault.crash.inside_write", "reach.recovered_nonempty", "reach.final_point_checked",
                         # stream-node-crash
                         "fault.maintenance_stalled_at_part_directory_creation", "reach.batch_acknowledged_while_maintenance_is_stalled", "reach.part_written_by.flush", "reach.part_written_by.mem-merge",
                         "reach.part_written_by.merge", "reach.manifest_published", "reach.crash_inside.flush", "reach.crash_inside.mem-merge", "reach.crash_inside.merge", "reach.crash_between_files_of_a_part",
-                        "reach.crash_inside_write_of_a_part_already_named_by_a_manifest", "reach.recovered_nonempty_from_crash_inside_maintenance"],
+                        "reach.crash_inside_write_of_a_part_already_named_by_a_manifest", "reach.recovered_nonempty_from_crash_inside_maintenance",
+                        # trace-node-crash
+                        "fault.manifest_writer_descheduled", "reach.secondary_index_part_written_by.flush", "reach.secondary_index_part_written_by.merge", "reach.crash_inside_secondary_index_part_write",
+                        "reach.manifest_published_by.flushed", "reach.manifest_published_by.merged", "reach.manifest_replaces_file_parts", "reach.crash_inside.publication", "reach.crash_inside.merge-publication"],
     "real_vs_stub": {
         "real": ["pkg/fs localFileSystem (CreateFile/Write/WriteAtomic/SyncPath/Close fsync discipline) compiled against the shim", "banyand/measure tsTable start-up (snapshot manifest load, part validation, leftover cleanup), flusher, merger, gc",
-                 "banyand/stream tsTable start-up (manifest load, part validation, orphan/leftover cleanup), memPart.mustFlush file protocol, flusher (incl. memory-part merge), merger, gc, element index open (stream-node-crash)", "banyand/internal/storage segment open/metadata", "liaison front-end + query path used to read back"],
+                 "banyand/stream tsTable start-up (manifest load, part validation, orphan/leftover cleanup), memPart.mustFlush file protocol, flusher (incl. memory-part merge), merger, gc, element index open (stream-node-crash)", "banyand/trace tsTable start-up (manifest load, part validation, orphan cleanup, secondary-index load from the manifest's part ids), memPart.mustFlush, flusher (incl. memory-part merge), merge dispatcher + lane workers, introducer (snapshot commit, manifest publication, release of replaced parts and their asynchronous removal), gc; banyand/internal/sidx part flush/merge files (trace-node-crash)",
+                 "banyand/internal/storage segment open/metadata", "liaison front-end + query path used to read back"],
         "stub": ["syscalls below pkg/fs: real files on tmpfs + journal (simos/simunix)", "crash = journal prefix materialised into a fresh directory", "series index and stream element index durability (bluge files carried as-is)", "metadata registry, clock"],
     },
     "assumptions": STD_ASSUME + [KNOBS_ASSUME, "power-loss model: ordered metadata (namespace operations durable up to the last fsync of any kind, later ones survive as a prefix of their order); file data durable up to the file's own last fsync",
